@@ -71,7 +71,7 @@ Call ==
                  /\ IF e[5] = 0 THEN Decide("run", why) ELSE Decide("rejected", <<"check-allocated", l>>)
        [] OTHER -> /\ UNCHANGED abs /\ Decide("rejected", <<"unknown-event", l, op>>)
 
-Next == verdict = "run" /\ (Call \/ AtEnd)
+Next == verdict = "run" /\ (Call \/ AtEnd) /\ UNCHANGED t
 Spec == Init /\ [][Next]_vars
 
 Report == verdict # "run" =>
